@@ -9,6 +9,7 @@ import (
 
 	"github.com/IrineSistiana/bytespool"
 	"github.com/IrineSistiana/gopool"
+	"github.com/IrineSistiana/mosproxy/internal/verifhook"
 )
 
 func Go(fn func()) {
@@ -18,10 +19,17 @@ func Go(fn func()) {
 type Buffer []byte
 
 func GetBuf(size int) Buffer {
+	if verifhook.On {
+		return verifGetBuf(size)
+	}
 	return bytespool.Get(size)
 }
 
 func ReleaseBuf(b Buffer) {
+	if verifhook.On {
+		verifReleaseBuf(b)
+		return
+	}
 	bytespool.Release(b)
 }
 
